@@ -112,7 +112,8 @@ def generate(rng, opts):
             "store_source": rng.random() < 0.7,
         }
         ops.append(op)
-    return {"world": {"modules": modules, "compiled": compiled, "stubs": stubs}, "ops": ops, "cfg": cfg}
+    # a long-lived process does not clean sys.modules between two loads
+    return {"world": {"modules": modules, "compiled": compiled, "stubs": stubs}, "ops": ops, "cfg": cfg, "keep_modules": rng.random() < 0.4}
 
 
 # ------------------------------------------------------------------------------------------------
@@ -364,7 +365,8 @@ def execute(plan, ctx):
                 # reset the interpreter for the next op of the history
                 for n in sentinels:
                     os.unlink(os.path.join(sent_dir, n))
-                purge_modules(WORLD_TOPS)
+                if not plan.get("keep_modules"):
+                    purge_modules(WORLD_TOPS)
                 for attr in [a for a in vars(builtins) if a.startswith("_c15_")]:
                     delattr(builtins, attr)
         finally:
